@@ -238,8 +238,14 @@ def r3_mismatch(repo):
              [a for a in ancestors(n) if isinstance(a, (ast.For, ast.While))][:1] == [lp]]
     for i, cn in enumerate(conts):
         gs = _g(cn, stop=lp)
-        okc = ("t_arg1 == t_arg2", True) in gs or ("t_arg2 == t_arg1", True) in gs or \
-            any(pol and s_.startswith("_update_type_var_map(") for s_, pol in gs)      # ... or the pair was just bound
+        bound_now = any(pol and s_.startswith("_update_type_var_map(") for s_, pol in gs)   # the pair was just bound
+        equal = ("t_arg1 == t_arg2", True) in gs or ("t_arg2 == t_arg1", True) in gs
+        # equal arguments may only be skipped when the pattern argument has no type variables: `Bar<T>` facing `Bar<T>`
+        # still binds T (to T), and that binding can clash with another occurrence of T
+        has_vars = [pol for s_, pol in [(" ".join(src(resolve_local(f.node, t_, at=cn)).split()), p_)
+                                        for t_, p_ in flat_guards(cn, stop=lp)]
+                    if s_ in ("t_arg2.has_type_variables()", "is_type_var")]
+        okc = bound_now or (equal and True not in has_vars)
         obs.append(Ob("C10-R3", "continue#%d:only-for-equal-arguments" % i, _w(f, cn), okc,
                       "an argument pair may be skipped only after `t_arg1 != t_arg2` was excluded or the pattern variable "
                       "was bound through the writer; guards %s" % gs))
